@@ -157,6 +157,10 @@ G_TYPEREG = z3.Const("G_TYPE_REGISTRY", Obj)
 G_CCYDICT = z3.Const("G_CURRENCY_DICT", Obj)
 C_QUANTITY = z3.Const("C_Quantity", Obj)
 C_MONEY = z3.Const("C_Money", Obj)
+from .sym import register_old as _register_old      # noqa: E402
+for _r in (G_SYMMAP, G_OPCACHE, G_TERMMAP, G_TYPEREG, G_CCYDICT, C_QUANTITY,
+           C_MONEY):
+    _register_old(_r)
 ROOTS = [G_SYMMAP, G_OPCACHE, G_TERMMAP, G_TYPEREG, G_CCYDICT, C_QUANTITY,
          C_MONEY]
 
